@@ -124,6 +124,142 @@ static CLK: HClock = HClock(AtomicU64::new(0));
 
 type Scenario = fn();
 
+// ------------------------------------------------ waker replacement under threads
+
+fn counting_waker() -> (Waker, std::sync::Arc<AtomicUsize>) {
+    struct CW(std::sync::Arc<AtomicUsize>);
+    impl std::task::Wake for CW {
+        fn wake(self: std::sync::Arc<Self>) {
+            self.0.fetch_add(1, Ordering::SeqCst);
+        }
+        fn wake_by_ref(self: &std::sync::Arc<Self>) {
+            self.0.fetch_add(1, Ordering::SeqCst);
+        }
+    }
+    let c = std::sync::Arc::new(AtomicUsize::new(0));
+    (Waker::from(std::sync::Arc::new(CW(c.clone()))), c)
+}
+
+/// The future is polled with waker 1 (pending), then - concurrently with the thread that
+/// performs the enabling operation - polled again with waker 2. If it is still pending after
+/// the enabling operation has finished, it must have been woken through waker 2 (the waker of
+/// its latest poll) and must complete when polled again.
+fn swap_check<F: Future>(prop: &str, what: &str, fut: F, spawn_enabler: impl FnOnce() -> loom::thread::JoinHandle<()>) {
+    let mut fut = Box::pin(fut);
+    let (w1, _c1) = counting_waker();
+    let (w2, c2) = counting_waker();
+    let (w3, _c3) = counting_waker();
+    if fut.as_mut().poll(&mut Context::from_waker(&w1)).is_ready() {
+        spawn_enabler().join().unwrap();
+        return;
+    }
+    let h = spawn_enabler();
+    let r2 = fut.as_mut().poll(&mut Context::from_waker(&w2)).is_ready();
+    h.join().unwrap();
+    if !r2 {
+        assert!(c2.load(Ordering::SeqCst) > 0, "{}: {} is pending after the enabling operation but was not woken through the waker of its latest poll", prop, what);
+        assert!(fut.as_mut().poll(&mut Context::from_waker(&w3)).is_ready(), "{}: {} does not complete although it was woken and the resource is available", prop, what);
+    }
+}
+
+fn swap_mutex(fair: bool) {
+    let m = Arc::new(GenericMutex::<LoomRaw, Tracked>::new(Tracked::new(), fair));
+    let _ = m.is_locked();
+    let holder = m.clone();
+    // the guard is taken and released by the enabler thread; until it ran the mutex is held
+    // 'static view of the mutex: `m` (here) and `holder` (enabler thread) keep it alive
+    let mr: &'static GenericMutex<LoomRaw, Tracked> = unsafe { &*(&*m as *const GenericMutex<LoomRaw, Tracked>) };
+    let g = mr.try_lock().unwrap();
+    let gptr = SendBox(Box::new(g));
+    swap_check("C03", "the lock future", mr.lock(), move || {
+        loom::thread::spawn(move || {
+            let g = gptr;
+            drop(g);
+            let _ = &holder;
+        })
+    });
+}
+struct SendBox<T>(Box<T>);
+unsafe impl<T> Send for SendBox<T> {}
+fn swap_mutex_fair() {
+    swap_mutex(true)
+}
+fn swap_mutex_unfair() {
+    swap_mutex(false)
+}
+fn swap_sem(fair: bool) {
+    let s = Arc::new(GenericSemaphore::<LoomRaw>::new(fair, 0));
+    let _ = s.permits();
+    let s2 = s.clone();
+    swap_check("C06", "the acquire future", s.acquire(1), move || loom::thread::spawn(move || s2.release(1)));
+}
+fn swap_sem_fair() {
+    swap_sem(true)
+}
+fn swap_sem_unfair() {
+    swap_sem(false)
+}
+fn swap_event() {
+    let e = Arc::new(GenericManualResetEvent::<LoomRaw>::new(false));
+    let _ = e.is_set();
+    let e2 = e.clone();
+    swap_check("C14", "the wait future", e.wait(), move || loom::thread::spawn(move || e2.set()));
+}
+fn swap_mpmc_recv() {
+    let (tx, rx) = sh::generic_channel::<LoomRaw, u32, FixedHeapBuf<u32>>(1);
+    let _ = rx.try_receive();
+    swap_check("C10", "the receive future", rx.receive(), move || {
+        loom::thread::spawn(move || {
+            let _ = tx.try_send(1);
+        })
+    });
+}
+fn swap_mpmc_send() {
+    let (tx, rx) = sh::generic_channel::<LoomRaw, u32, FixedHeapBuf<u32>>(1);
+    let _ = rx.try_receive();
+    tx.try_send(1).unwrap();
+    swap_check("C10", "the send future", tx.send(2), move || {
+        loom::thread::spawn(move || {
+            let _ = rx.try_receive();
+            // keep the receiver alive until the sender side is done
+            let _keep = rx;
+        })
+    });
+}
+fn swap_oneshot() {
+    let c = Arc::new(GenericOneshotBroadcastChannel::<LoomRaw, u32>::new());
+    let _ = poll_once_and_drop(c.receive());
+    let c2 = c.clone();
+    swap_check("C12", "the receive future", c.receive(), move || {
+        loom::thread::spawn(move || {
+            let _ = c2.send(1);
+        })
+    });
+}
+fn swap_state() {
+    let c = Arc::new(GenericStateBroadcastChannel::<LoomRaw, u32>::new());
+    let _ = c.try_receive(StateId::new());
+    let c2 = c.clone();
+    swap_check("C13", "the state receive future", c.receive(StateId::new()), move || {
+        loom::thread::spawn(move || {
+            let _ = c2.send(1);
+        })
+    });
+}
+fn swap_timer() {
+    CLK.0.store(0, Ordering::SeqCst);
+    let t = Arc::new(GenericTimerService::<LoomRaw>::new(&CLK));
+    let _ = t.next_expiration();
+    let t2 = t.clone();
+    swap_check("C15", "the timer future", Timer::deadline(&*t, 1), move || {
+        loom::thread::spawn(move || {
+            CLK.0.store(1, Ordering::SeqCst);
+            t2.check_expirations();
+        })
+    });
+}
+
+
 // ---- scheduling points for the crate's handle counters (verif::sync::AtomicUsize hook)
 static REG: std::sync::Mutex<Vec<(usize, std::sync::Arc<loom::sync::atomic::AtomicUsize>)>> = std::sync::Mutex::new(Vec::new());
 fn sched_hook(addr: usize) {
@@ -802,6 +938,16 @@ fn timer_abandon() {
 }
 
 const SCENARIOS: &[(&str, &str, Scenario)] = &[
+    ("swap_mutex_fair", "C03", swap_mutex_fair),
+    ("swap_mutex_unfair", "C03", swap_mutex_unfair),
+    ("swap_sem_fair", "C06", swap_sem_fair),
+    ("swap_sem_unfair", "C06", swap_sem_unfair),
+    ("swap_event", "C14", swap_event),
+    ("swap_mpmc_recv", "C10", swap_mpmc_recv),
+    ("swap_mpmc_send", "C10", swap_mpmc_send),
+    ("swap_oneshot", "C12", swap_oneshot),
+    ("swap_state", "C13", swap_state),
+    ("swap_timer", "C15", swap_timer),
     ("mutex_cancel_in_queue_fair", "C01,C02,C03", mutex_cancel_in_queue_fair),
     ("mutex_cancel_in_queue_unfair", "C02,C03", mutex_cancel_in_queue_unfair),
     ("event_two_waiters", "C14", event_two_waiters),
